@@ -365,6 +365,21 @@ pub fn c6() -> OptionParser<(bool, Vec<Cmd1>)> {
     construct!(v, cmd).to_options()
 }
 
+fn c7_mid() -> OptionParser<(bool, Option<Inner2>)> {
+    let m = short('m').long("mid").switch();
+    let leaf = c2_leaf().command("leaf").map(Some);
+    let none = pure(None);
+    let sub = construct!([leaf, none]);
+    construct!(m, sub).to_options()
+}
+
+/// depth 2 where the inner command is one branch of a choice whose other branch always succeeds
+pub fn c7() -> OptionParser<(bool, (bool, Option<Inner2>))> {
+    let v = short('v').long("verbose").switch();
+    let mid = c7_mid().command("mid");
+    construct!(v, mid).to_options()
+}
+
 /// switch declared before a repeated argument (the switch's consumption precedes the loop)
 pub fn g4() -> OptionParser<(bool, Vec<u32>, u32)> {
     let a = short('a').long("alpha").switch();
